@@ -31,12 +31,17 @@ CONFIG = dict(
                "proofs are about the repaired code.  Fixed defect F08-filtered-update-does-not-rearm-hold-timer (an UPDATE whose "
                "routes are all ignored - AS loop, attributes only - never reached the FSM: no hold-timer restart, no FSM error "
                "outside Established; found by the wire stream).  Remark R08: a configured local hold time 0 becomes 180 in both "
-               "configuration paths, so negotiated 0 is reachable in the daemon only through the remote value.  The `wait` loop "
-               "of run_case_c08 (virtual clock, firing order, fuel) stays transcribed; what the wire stream ties to the real "
-               "run_select is: the hold collection feeds HoldTimerExpired and ends the task with NOTIFICATION (4,0), the "
-               "keepalive collection feeds KeepaliveTimerExpired (KEEPALIVE sent, timer re-armed to a third), both are polled "
-               "before the socket, an emptied collection is reported (timer-collection-empty).  Not tied: that a tokio sleep "
-               "completes at its deadline, hold-before-keepalive on an exact tie.",
+               "configuration paths, so negotiated 0 is reachable in the daemon only through the remote value.  The passage of "
+               "time is now ALSO run through the real code: wire cases contain `(wait d)` actions executed on the real "
+               "run_select with real tokio timers under the runtime's paused clock (tokio test-util; the rig moves the clock "
+               "from one second with a due timer to the next and pumps the sessions there), and the expiries seen on the wire "
+               "(KEEPALIVE = keepalive timer, NOTIFICATION (4,0) = hold timer), their times, their order, the re-armed deadlines "
+               "and the tear-down are compared with Timed.advance and judged by TimedSpec.onWait (fired exactly at lastRx+n / "
+               "lastKa+n/3, nothing overdue at the end of a wait) plus the general clause 'hold deadline = last received + n, "
+               "keepalive deadline = last start + n/3' after EVERY action.  So which future feeds which input, the polling "
+               "order (hold before keepalive, timers before the socket) and termination are the real run_select's; the `wait` "
+               "loop of run_case_c08 (FSM stream) remains a transcription that is cross-checked by these cases.  Not tied: "
+               "tokio's timer wheel itself; ties between the two tasks of one peer (the rig pumps active before passive).",
     lean_modules=["Rbgp.Fsm.TimedProps"],
     theorems=[
         "Rbgp.Fsm.TimedProps.check_run_ok",
@@ -64,6 +69,43 @@ CONFIG = dict(
     # (probe ..) -> real PeerSession::apply_outputs
     harness=dict(kind="daemon", test="event::verif_event::c08::verif_main"),
     profiles=["debug"],
+    oracle_stats=True,
+    # boundary buckets (Rbgp/C08/Stats.lean, computed from each case and its REAL observation) that every run must hit
+    expect_judged=['lh:0', 'lh:3', 'lh:4', 'lh:5', 'lh:6', 'lh:7..239', 'lh:240', 'lh:241..65533', 'lh:65534', 'lh:65535', 'rh:0',
+                   'rh:3', 'rh:4', 'rh:5', 'rh:6', 'rh:7..239', 'rh:240', 'rh:241..65533', 'rh:65534', 'rh:65535', 'neg:0', 'neg:3',
+                   'neg:4', 'neg:5', 'neg:6', 'neg:7..239', 'neg:240', 'neg:241..65533', 'neg:65534', 'neg:65535', 'w:lh:0', 'w:lh:3',
+                   'w:lh:4', 'w:lh:5', 'w:lh:6', 'w:lh:7..239', 'w:lh:240', 'w:lh:241..65533', 'w:lh:65534', 'w:lh:65535', 'w:neg:0',
+                   'w:neg:3', 'w:neg:4', 'w:neg:5', 'w:neg:6', 'w:neg:7..239', 'w:neg:240', 'w:neg:241..65533', 'w:neg:65534',
+                   'w:neg:65535', 'neg%3:0', 'neg%3:1', 'neg%3:2', 'w:neg%3:0', 'w:neg%3:1', 'w:neg%3:2', 'rel:eq', 'rel:l+1',
+                   'rel:l-1', 'rel:lt', 'rel:gt', 'w:rel:eq', 'w:rel:l+1', 'w:rel:l-1', 'w:rel:lt', 'w:rel:gt', 'wait:hold-1',
+                   'wait:hold@', 'wait:hold+1', 'wait:hold>>', 'wait:ka-1', 'wait:ka@', 'wait:ka+1', 'wait:ka>>', 'w:wait:hold-1',
+                   'w:wait:hold@', 'w:wait:hold+1', 'w:wait:hold>>', 'w:wait:ka-1', 'w:wait:ka@', 'w:wait:ka+1', 'w:wait:ka>>',
+                   'wait:0', 'wait:confirmed-neg0', 'wait:opensent', 'w:wait:confirmed-neg0', 'w:wait:opensent', 'fired:ka',
+                   'fired:hold-confirmed', 'fired:hold-opensent', 'fired:3-or-more-in-one-wait', 'fired:two-roles-same-second',
+                   'w:fired:ka', 'w:fired:hold', 'w:fired:two-roles-same-second', 'w:connect-refused', 'w:no-conn',
+                   'w:ka-timer-skipped', 'w:keepalive@opensent', 'w:update@opensent', 'w:update-looped@opensent',
+                   'w:update-attrs@opensent', 'w:update-withdraw@opensent', 'w:eor@opensent', 'w:route-refresh@opensent',
+                   'w:notification@opensent', 'w:close@opensent', 'w:admin-shutdown@opensent', 'w:hold-timer@opensent',
+                   'w:hold-timer+keepalive@opensent', 'w:reset@opensent', 'w:bfd-down@opensent', 'w:open@opensent',
+                   'w:keepalive@openconfirm', 'w:update@openconfirm', 'w:update-looped@openconfirm', 'w:update-attrs@openconfirm',
+                   'w:update-withdraw@openconfirm', 'w:eor@openconfirm', 'w:route-refresh@openconfirm', 'w:notification@openconfirm',
+                   'w:close@openconfirm', 'w:admin-shutdown@openconfirm', 'w:hold-timer@openconfirm',
+                   'w:hold-timer+keepalive@openconfirm', 'w:reset@openconfirm', 'w:bfd-down@openconfirm', 'w:open@openconfirm',
+                   'w:keepalive@established', 'w:update@established', 'w:update-looped@established', 'w:update-attrs@established',
+                   'w:update-withdraw@established', 'w:eor@established', 'w:route-refresh@established', 'w:notification@established',
+                   'w:close@established', 'w:admin-shutdown@established', 'w:hold-timer@established',
+                   'w:hold-timer+keepalive@established', 'w:reset@established', 'w:bfd-down@established', 'w:open@established',
+                   'w:ka-timer@openconfirm', 'w:ka-timer@established', 'w:connect@idle', 'w:open@idle', 'probe:nothing-set',
+                   'probe:set-hold-twice-last-wins', 'probe:other-output', 'probe:set-hold:0', 'probe:set-hold:1', 'probe:set-hold:3',
+                   'probe:set-hold:7..239', 'probe:set-hold:240', 'probe:set-hold:65535', 'probe:set-ka:0', 'probe:set-ka:1',
+                   'probe:set-ka:3', 'probe:set-ka:7..239', 'probe:set-ka:240', 'probe:set-ka:65535', 'ev:keepalive@idle',
+                   'ev:keepalive@opensent', 'ev:keepalive@confirmed', 'ev:update@idle', 'ev:update@opensent', 'ev:update@confirmed',
+                   'ev:update-sent@idle', 'ev:update-sent@opensent', 'ev:update-sent@confirmed', 'ev:route-refresh@idle',
+                   'ev:route-refresh@opensent', 'ev:route-refresh@confirmed', 'ev:open@idle', 'ev:open@opensent', 'ev:open@confirmed',
+                   'ev:open-parsed@idle', 'ev:open-parsed@opensent', 'ev:open-parsed@confirmed', 'ev:notification@idle',
+                   'ev:notification@opensent', 'ev:notification@confirmed', 'ev:disconnected@idle', 'ev:disconnected@opensent',
+                   'ev:disconnected@confirmed', 'ev:admin-shutdown@idle', 'ev:admin-shutdown@opensent', 'ev:admin-shutdown@confirmed',
+                   'ev:connected@idle', 'ev:connected@opensent', 'ev:connected@confirmed'],
     n_quick=3000, n_thorough=150000, shards=12,
     nontrivial_re=r"\(fired \(|probe-obs|wire-obs",
     rule="(a) timed histories (message arrivals, sends, passage of virtual time) through OpenSent/OpenConfirm/Established on both "
@@ -71,8 +113,14 @@ CONFIG = dict(
          "and bad identifiers) and parsed; waits chosen around the keepalive and hold deadlines (deadline-1, deadline, "
          "deadline+1), around the 240 s OpenSent timer and long ones; (b) about one case in twelve is a timer probe: a list of "
          "0..5 Set*Timer/other outputs (values 0,1,3,30,90,240,65535) applied by the real PeerSession::apply_outputs; "
-         "(c) about one case in twenty-five is a driver-level wire case (real sessions on loopback TCP, 2..12 actions incl. "
-         "looped / attributes-only / withdraw / End-of-RIB UPDATEs, both timers made due, collisions, refused OPENs); "
+         "(c) one case in five is a driver-level wire case (real sessions on loopback TCP under the paused tokio clock, "
+         "2..17 actions incl. waits around the keepalive/hold deadlines, looped / attributes-only / withdraw / End-of-RIB "
+         "UPDATEs, both timers made due, collisions, refused OPENs, reset, BFD down); hold times from {0,3,4,5,6,8,9,30,90,240,"
+         "65534,65535} with the remote value independent, equal or adjacent to the local one; (d) deterministic sweep in every "
+         "run: every pair of boundary hold times (13 values, each against itself, its neighbours, 0, 3, 90, 65535) as a timed "
+         "history and as a wire case with waits ending one second before / at / one second after the keepalive and the hold "
+         "deadline, and every wire action in each of OpenSent / OpenConfirm / Established; the boundary buckets hit are "
+         "counted from the real observations (coverage.oracle_clause_counts, list expect_judged); "
          "non-trivial = at least one timer fired, a probe observation or a wire observation; distinct = distinct case line",
     expect_tokens=["hold-expired", "(fired (", "ka ", "established", "probe-obs", "far", "parse-reject", "(6 7)",
                    "stop-active-connect", "wire-obs", "(hold set", "(hold kept", "(ka set", "(notif 4 0)", "(notif 6 7)",
@@ -82,20 +130,23 @@ CONFIG = dict(
                   "from apply_outputs; the Set*Timer reading is cross-checked on the real apply_outputs by the probe cases); "
                   "that tokio::time::sleep(n) completes n seconds later is assumed",
                   "harness/daemon/c08.rs: helpers copied from event/mod.rs `mod tests` (make_global, default_peer_params, "
-                  "loopback_pair); 30 ms of real time decide fires/quiet",
+                  "loopback_pair); a 30 ms timeout on the runtime's (paused) clock decides fires/quiet",
                   "harness/daemon/rig.rs (wire stream): transcribed session_loop preamble/tail and run->apply_disconnect call, "
-                  "timer expiry provoked by replacing the collection with sleep(0), single-threaded pumping, 12 ms idle "
-                  "detection; model Rbgp/Fsm/Wire.lean (incl. 'End-of-RIB is sent on entering Established => update-sent'), "
+                  "timer expiry provoked either by moving the paused clock (`wait`) or by replacing the collection with sleep(0), "
+                  "single-threaded pumping (a session is idle when run_select stays pending over several driver turns); the "
+                  "clock runs up to 0.45 s ahead of the model second (1 ms per action / expiry group) and all times are reported "
+                  "rounded to whole seconds; model Rbgp/Fsm/Wire.lean (incl. 'End-of-RIB is sent on entering Established => update-sent'), "
                   "checker Rbgp/Fsm/WireSpec.lean (no Lean master theorem for this stream)"],
-    modelled_not_verified=["wall-clock accuracy of tokio sleeps", "FuturesUnordered polling order beyond hold-before-keepalive",
-                           "the second SetKeepaliveTimer site (flush of pending UPDATEs feeding Input::UpdateSent) is covered as "
-                           "the FSM output only"],
-    assumptions=["timers fire exactly at their deadline on a virtual clock in whole seconds",
+    modelled_not_verified=["tokio's timer wheel (that a Sleep completes when the clock reaches its deadline) and wall-clock "
+                           "accuracy", "the second SetKeepaliveTimer site (flush_tx -> Input::UpdateSent) is executed for real only "
+                           "for the End-of-RIB sent on entering Established (wire stream); update-sent at other moments is "
+                           "covered as the FSM output only"],
+    assumptions=["timers fire exactly at their deadline on a clock in whole seconds (wire stream: tokio's paused clock)",
                  "wfHist: timer-expiry inputs are produced by the clock only; parsed OPENs injected directly do not carry hold "
                  "time 1 or 2 (parse_message rejects them)"],
 )
 
-HOLDS = [0, 0, 3, 4, 9, 30, 90, 240, 65535]
+HOLDS = [0, 0, 3, 4, 5, 6, 8, 9, 30, 90, 240, 65534, 65535]   # incl. every residue mod 3 at the low and the high end
 PROBE_VALS = [0, 0, 1, 3, 30, 90, 240, 65535]
 
 
@@ -114,7 +165,10 @@ def gen_probe(r):
 
 def gen_case(r):
     local_hold = r.pick(HOLDS)
-    remote_hold = r.pick(HOLDS)
+    # remote hold time: independent, equal to the local one, or adjacent to it (the min() switch point)
+    remote_hold = r.weighted([(r.pick(HOLDS), 6), (local_hold, 2), (local_hold + 1, 1), (max(local_hold, 1) - 1, 1)])
+    if remote_hold in (1, 2) or remote_hold > 65535:
+        remote_hold = 3
     neg = min(local_hold, remote_hold)
     local_rid = r.pick([1, 167772161])
     remote_rid = 33686018
@@ -178,32 +232,62 @@ def gen_case(r):
     return "(case (cfg %d 65001 %d 65002) (evs %s))" % (local_rid, local_hold, " ".join(evs))
 
 
+WIRE_HOLDS = [0, 0, 3, 4, 5, 6, 9, 30, 90, 240, 65534, 65535]
+
+
 def gen_wire(r):
-    """Driver-level case: real sessions on loopback TCP (harness/daemon/rig.rs), model Rbgp/Fsm/Wire.lean."""
-    local_hold = r.pick([0, 3, 9, 30, 90, 90, 240, 65535])
-    remote_hold = r.pick([0, 3, 9, 30, 30, 90, 65535])
+    """Driver-level case: real sessions on loopback TCP under the runtime's paused clock (harness/daemon/rig.rs),
+    model Rbgp/Fsm/Wire.lean.  Since the clock is virtual these cases are as cheap as the others."""
+    local_hold = r.pick(WIRE_HOLDS)
+    # remote hold time: independent, equal to the local one, or adjacent to it
+    remote_hold = r.weighted([(r.pick(WIRE_HOLDS), 6), (local_hold, 2), (local_hold + 1, 1), (max(local_hold, 1) - 1, 1)])
+    if remote_hold in (1, 2) or remote_hold > 65535:
+        remote_hold = 3
     neg = min(local_hold, remote_hold)
     local_rid = r.pick([16777217, 167772161])
     remote_rid = 33686018
     expected = r.pick([0, 65002, 65002])
     roles = ["P"] if r.chance(1, 2) else (["A"] if r.chance(1, 2) else ["A", "P"])
     evs = []
+
+    def waits():
+        cands = [0, 1, 2]
+        if neg:
+            k = neg // 3
+            cands += [k - 1, k, k + 1, 2 * k, 3 * k, neg - 1, neg, neg + 1, neg - k, neg - 2 * k]
+        cands += [239, 240, 241]
+        d = max(0, r.pick(cands))
+        return min(d, 400) if neg and neg < 400 else min(d, 70000)
+
     for role in roles:
         evs.append("(%s connect)" % role)
+        if r.chance(1, 8):
+            evs.append("(A (wait %d))" % waits())
     for role in roles:
         if r.chance(9, 10):
             evs.append("(%s (open 65002 %d %d))" % (role, remote_hold, remote_rid))
+            if r.chance(1, 4):
+                evs.append("(A (wait %d))" % waits())
             if r.chance(8, 10):
                 evs.append("(%s keepalive)" % role)
-    acts = [("keepalive", 4), ("update", 3), ("update-looped", 4), ("update-attrs", 3), ("update-withdraw", 1), ("eor", 1),
-            ("route-refresh", 2), ("hold-timer", 1), ("hold-timer+keepalive", 1), ("notification", 1), ("close", 1),
-            ("admin-shutdown", 1), ("connect", 2), ("open", 1), ("badopen", 1), ("reset", 1), ("bfd-down", 1)]
+            elif r.chance(1, 2):
+                # something else while still in OpenConfirm
+                k2 = r.pick(["route-refresh", "reset", "eor", "update-withdraw", "(notification 6 2)", "ka-timer",
+                             "hold-timer", "admin-shutdown", "bfd-down"])
+                if k2 == "ka-timer" and neg == 0:
+                    k2 = "route-refresh"
+                evs.append("(%s %s)" % (role, k2))
+    acts = [("wait", 9), ("keepalive", 4), ("update", 3), ("update-looped", 3), ("update-attrs", 2), ("update-withdraw", 1),
+            ("eor", 1), ("route-refresh", 2), ("hold-timer", 1), ("hold-timer+keepalive", 1), ("notification", 1),
+            ("close", 1), ("admin-shutdown", 1), ("connect", 2), ("open", 1), ("badopen", 1), ("reset", 1), ("bfd-down", 1)]
     if neg != 0:
-        acts.append(("ka-timer", 3))
-    for _ in range(r.below(r.pick([3, 6, 10]))):
+        acts.append(("ka-timer", 2))
+    for _ in range(r.below(r.pick([3, 6, 10, 14]))):
         role = r.pick(roles) if r.chance(5, 6) else r.pick(["A", "P"])
         k = r.weighted(acts)
-        if k == "notification":
+        if k == "wait":
+            evs.append("(A (wait %d))" % waits())
+        elif k == "notification":
             evs.append("(%s (notification 6 2))" % role)
         elif k == "open":
             evs.append("(%s (open 65002 %d %d))" % (role, remote_hold, remote_rid))
@@ -215,15 +299,58 @@ def gen_wire(r):
     return "(wire (cfg %d 65001 %d %d) (evs %s))" % (local_rid, local_hold, expected, " ".join(evs))
 
 
+BOUNDARY_HOLDS = [0, 3, 4, 5, 6, 7, 8, 9, 240, 241, 65533, 65534, 65535]
+WIRE_ACTS = ["keepalive", "update", "update-looped", "update-attrs", "update-withdraw", "eor", "route-refresh",
+             "(notification 6 2)", "(open 65002 30 33686018)", "close", "admin-shutdown", "hold-timer", "hold-timer+keepalive",
+             "ka-timer", "reset", "bfd-down", "connect", "(wait 1)"]
+
+
+def sweep():
+    """Deterministic part, in EVERY run: (1) every pair of boundary hold times (each value against itself, its two
+    neighbours and a far value) as a timed history AND as a wire case on real timers, with waits ending one second
+    before, exactly at and one second after the first keepalive deadline and the hold deadline; (2) every wire action in
+    each of OpenSent / OpenConfirm / Established."""
+    out = []
+    seen = set()
+    for lh in BOUNDARY_HOLDS:
+        for rh in sorted({lh, lh + 1, max(lh, 1) - 1, 0, 3, 90, 65535}):
+            if rh in (1, 2) or rh > 65535 or (lh, rh) in seen:
+                continue
+            seen.add((lh, rh))
+            neg = min(lh, rh)
+            k = neg // 3
+            if neg:
+                w = [max(k - 1, 0), 1, 1]                      # ka deadline -1, =, +1
+                t = max(k - 1, 0) + 2
+                tail = [max(neg - 1, 0), 1, 1]                 # after a KEEPALIVE at t: hold deadline -1, =, +1
+            else:
+                w, tail = [1000], [70000]
+            tev = ["(A (connected f))", "(A (open 65002 %d 33686018))" % rh, "(A keepalive)"]
+            wev = ["(P connect)", "(P (open 65002 %d 33686018))" % rh, "(P keepalive)"]
+            for d in w:
+                tev.append("(A (wait %d))" % d); wev.append("(P (wait %d))" % d)
+            tev.append("(A keepalive)"); wev.append("(P keepalive)")
+            for d in tail:
+                tev.append("(A (wait %d))" % d); wev.append("(P (wait %d))" % d)
+            out.append("(case (cfg 1 65001 %d 65002) (evs %s))" % (lh, " ".join(tev)))
+            if neg == 0 or neg >= 9 or True:
+                out.append("(wire (cfg 16777217 65001 %d 65002) (evs %s))" % (lh, " ".join(wev)))
+    for pre in (["(P connect)"], ["(P connect)", "(P (open 65002 30 33686018))"],
+                ["(P connect)", "(P (open 65002 30 33686018))", "(P keepalive)"]):
+        for act in WIRE_ACTS:
+            out.append("(wire (cfg 16777217 65001 90 65002) (evs %s (P %s) (P (wait 1)) (P connect)))" % (" ".join(pre), act))
+    return out
+
+
 def gen(seed, n, tier):
     r = Rng(seed * 1000003 + 8)
     out = []
     for _ in range(n):
         k = r.below(300)
-        if k < 12:
-            out.append(gen_wire(r))       # ~0.4 s of real time each: kept rare
-        elif k < 36:
+        if k < 60:
+            out.append(gen_wire(r))       # virtual time: one in five
+        elif k < 84:
             out.append(gen_probe(r))
         else:
             out.append(gen_case(r))
-    return out
+    return out + sweep()
